@@ -88,6 +88,9 @@ func tallFamily(c *Ctx, prop string) {
 		insts = insts[1:]
 	case "C10":
 		or = HistOracle{Lookups: true, Prop: prop}
+	case "C17":
+		// argument/result snapshots ride on the C02 oracle's calls (Prove, Verify, Modify, Undo)
+		or = HistOracle{Roots: true, Proofs: true, ProofSets: "tall", Prop: "C02"}
 	default:
 		return
 	}
